@@ -62,7 +62,21 @@ func runC02(c *ctx, cfg c02cfg, seed int64) rTrace {
 		return 0, false
 	}
 	stopSeen := false
+	tr.MaxIter = int64(cfg.MaxIter)
+	arrive := func(proc, point string, n int64) {
+		switch point {
+		case "tp.send.before", "tp.send.unlocked":
+			return // same program counter as the neighbouring point (see Trace_TriggerPool)
+		}
+		if strings.HasPrefix(point, "ps.") {
+			return // progress-statistics yield points inside the body's bookkeeping: not part of the pool specification
+		}
+		mu.Lock()
+		tr.Arr = append(tr.Arr, []any{proc, point, n})
+		mu.Unlock()
+	}
 	s.OnPoint = func(proc, point string, n int64) {
+		arrive(proc, point, n)
 		switch point {
 		case "tp.stop.flagged":
 			stopSeen = true
@@ -136,6 +150,7 @@ func runC02(c *ctx, cfg c02cfg, seed int64) rTrace {
 		s.Pause("C.cancel", 0)
 		add(rEv{K: "cancel", C: 1})
 		cancel()
+		arrive("C", "C.done", 0)
 		s.Exit()
 	}()
 	<-started
@@ -206,6 +221,11 @@ func runC02(c *ctx, cfg c02cfg, seed int64) rTrace {
 	if tr.Err == "" && !s.AllDone() {
 		tr.Err = "schedule did not finish: " + strings.Join(s.Describe(), " ")
 	}
+	for _, p := range s.Procs() {
+		if strings.HasPrefix(p.Name, "w") {
+			tr.Workers = append(tr.Workers, p.Name)
+		}
+	}
 	if tr.Err == "" {
 		select {
 		case <-pm.WaitForCompletion():
@@ -220,6 +240,7 @@ func runC02(c *ctx, cfg c02cfg, seed int64) rTrace {
 		}
 		tot := stats.Total()
 		add(rEv{K: "ret", A: int64(tot.SuccessfulIterationDurations.Count), B: int64(tot.FailedIterationDurations.Count), D: int64(tot.DroppedIterationCount)})
+		tr.Arr = append(tr.Arr, []any{"END", "END", int64(tot.SuccessfulIterationDurations.Count + tot.FailedIterationDurations.Count), int64(tot.DroppedIterationCount)})
 	}
 	tr.Cfg.Args += " sched=" + strings.Join(names, ",")
 	return tr
